@@ -8,6 +8,15 @@ ALL = ['C%02d' % i for i in range(1, 21)]
 
 # id -> (technique, level text, level note, design ref)
 CHECKS = {
+    'C17': (
+        'Hypothesis-generated namespace nestings against an independent namespace resolver; round trip; mapper law',
+        'Documents whose elements redeclare, shadow and multiply bind a pool of prefixes and the default namespace at random '
+        'depths are decoded under stacked / collapsed / root-only xmlns processing; every key of the decoded data is resolved with '
+        'the declarations the data itself reports (XML Namespaces rules) and must be the node\'s expanded name; encoding the data '
+        'must restore all expanded names; dictionary converters and DataElement are covered; unmap(map(q)) == q on random maps. '
+        'Two conventions of the library are listed known findings (default-namespace attributes, dictionary key collisions).',
+        'trusted: the generator knows every node\'s expanded name by construction; resolver in vf/checks/c17.py',
+        'DESIGN.md section 3 C17'),
     'C10': (
         'stateful (rule-based state machine) testing with a fresh-schema oracle after every step',
         'Hypothesis RuleBasedStateMachines drive one long-lived schema object through random histories of 17 public operations '
